@@ -273,3 +273,37 @@ def _direction(prog, res):
               'kernel is multiplied by direction %d time(s), expected %d: '
               'the sign flip must be applied before and undone after the '
               'monotone pass' % (mults, want))
+
+
+def run_bound_factor(prog, res):
+  """B1: the quantity the two-sided bound projection divides by (and the
+  assertion compares with 1) is prod over dims of max over keypoints of
+  |weight| - an upper bound of every |interpolated output|.  abs must be
+  applied before the max: max|w| dominates every entry, |max w| does not."""
+  from ..rules.asserts import AssertEvaluator
+  for q in (B + '._approximately_project_bounds',
+            B + '._assert_bound_constraints'):
+    fn = prog.function(q)
+    res.analysed(fn)
+    ev = AssertEvaluator(prog, fn)
+    sites = [c for c in ast.walk(fn.node) if isinstance(c, ast.Call)
+             and prog.ext_name(fn.module, c.func) == 'tf.reduce_prod']
+    if not sites:
+      raise AnalysisError('%s: reduce_prod over dims not found' % q)
+    for i, c in enumerate(sites):
+      at = ev.cfg.node_containing(c)
+      v = ev.eval(c.args[0], at)
+      kw = {k.arg: k.value for k in c.keywords}
+      ax = const_value(kw.get('axis', c.args[1] if len(c.args) > 1 else None))
+      good = v.kind == 'agg' and v.pol == 'max' and v.nonneg
+      res.check(good, 'B1', '%s|max-abs#%d' % (q, i), fn.loc(c),
+                'factor = prod_dims max_keypoints |w| (abs inside the max)',
+                'the bound factor in %s is a product of %s, not of '
+                'max_keypoints |w|: a large negative entry is not dominated, '
+                'so outputs can leave [output_min, output_max]' % (
+                    fn.name, v))
+      res.check(ax == 3, 'B1', '%s|prod-axis#%d' % (q, i), fn.loc(c),
+                'product over the dims axis (3) of (lead, lattice, units, '
+                'dims, terms)',
+                'the product must run over the dims axis (3); found %s' % ax)
+  res.floor('B1', 4)
